@@ -34,6 +34,7 @@ THEOREMS = ["read_sees_one_version", "one_version_per_read_tx", "all_or_nothing_
             "no_append_onto_shared_slice", "append_table_meaning", "append_table_anchors",
             "eval_does_not_write_nodes", "node_write_table_meaning", "node_write_table_anchors",
             "no_process_wide_config_calls", "config_call_table_meaning",
+            "read_apis_do_not_write_arguments", "param_write_table_meaning", "param_write_table_anchors",
             "remove_before_delivers_only_to_own", "listener_discipline_pinned", "every_parse_delivers_only_to_own",
             "pooled_parser_carries_no_collector"]
 TABLE_OBLIGATIONS = ["no_unsynchronised_global_writes (Generated/Globals.lean, regenerated from the package-level vars of zitiql/ast/boltz/objectz)",
@@ -44,6 +45,8 @@ TABLE_OBLIGATIONS = ["no_unsynchronised_global_writes (Generated/Globals.lean, r
                      "append_table_anchors (same table)",
                      "eval_does_not_write_nodes (same file: writes to receiver state in methods of ast node types, by phase)",
                      "node_write_table_anchors (same table)",
+                     "read_apis_do_not_write_arguments (same file: functions that write through slice / map / pointer parameters, by API kind)",
+                     "param_write_table_anchors (same table)",
                      "listener_discipline_pinned (same file: what zitiql.parse does with the error listeners of the pooled parser and lexer)",
                      "no_process_wide_config_calls (same file: calls into other modules that set process-wide state, assignments to their package variables)"]
 
@@ -70,7 +73,10 @@ RULE = ("mv: seeded random writer histories of 4..17 (quick) / 4..27 (thorough) 
         "sorting scanner) each parsed ONCE per round and the compiled query run by 3-5 readers released together, 30 (quick) / 100 "
         "(thorough) rounds; recorded and judged as for cr. The parse race scenario also goes through zitiql.ParseWithDebug(true/false), "
         "zitiql.Parse and ast.Parse with ast.EnableQueryDebug toggled, on valid and invalid inputs. "
-        "race: 8 scenarios x 6 goroutines under the race detector + 2 mv + 4 cr cases")
+        "Round 5: FindMatching / FindMatchingAnyOf / IteratorMatchingAllOf / IteratorMatchingAnyOf on the roles set index with one of 8 "
+        "values slices (not ascending, 1-4 values, a duplicate, empty) that all readers of a case share; the answer starts with 1 iff the "
+        "caller's slice is unchanged after the call; roles now 0-4 of r0..r4 per entity. "
+        "race: 9 scenarios x 6 goroutines under the race detector + 2 mv + 4 cr cases")
 
 MATCHERS = {}   # no open finding (debug-parse-stale-listener was repaired by 956c2a8)
 REVIEWED_APPENDS = {("boltz", "NewBaseStore", "definition.BasePath")}   # = C18/Globals.lean reviewedAppends
@@ -326,7 +332,7 @@ def run(ctx, replay_cases=None):
             probe = {"case": pcase, "race_reports": len(reps),
                      "first_report": reps[0] if reps else None,
                      "verdict": "outside the property's wording: the probe query has IMPLICIT paging, so setPaging stores default skip/limit nodes in it; reported, not counted (explicit paging is covered by the sq cases)"}
-    ctx.obligation("race search: no data-race report in concurrent ast.Parse / Store.GetSymbol / Is*Error helpers / parse+query under a writer / external-symbol filters / empty filter with per-reader paging / nested map-symbol filters / one compiled query with explicit paging run by several read transactions / debug and diagnostic parse entry points (race detector; search only)",
+    ctx.obligation("race search: no data-race report in concurrent ast.Parse / Store.GetSymbol / Is*Error helpers / parse+query under a writer / external-symbol filters / empty filter with per-reader paging / nested map-symbol filters / one compiled query with explicit paging run by several read transactions / debug and diagnostic parse entry points / set-index lookups with shared values slices (race detector; search only)",
                    not reports, f"{len(reports)} new report(s), {len(known_reports)} report(s) of known findings")
 
     ctx.coverage.update({
@@ -406,6 +412,9 @@ def _escape_offenders():
     for c in (facts.get("configCalls") or []):
         if not c["inInit"]:
             res.append({"process_wide_config_call": c["callee"], "in": c["pkg"] + "." + c["func"], "at": c["pos"]})
+    for w in (facts.get("paramWrites") or []):
+        if w["api"] == "read":
+            res.append({"read_api_writes_through_parameter": w["pkg"] + "." + w["func"], "param": w["param"], "how": w["how"], "at": w["pos"]})
     for l in (facts.get("listeners") or []):
         need = ["removeBeforeAlways", "addsCollector"] + (["removeAfterDeferred"] if l["recogniser"] == "parser" else [])
         missing = [k for k in need if not l.get(k)]
